@@ -410,7 +410,7 @@ func (w *World) prelude() string {
 	// Go interface equality (float semantic for boxed floats)
 	b.WriteString("(define-fun ifaceEq ((a Val) (b Val)) Bool (ite (and ((_ is VF64) a) ((_ is VF64) b)) (fp.eq (pVF64 a) (pVF64 b)) (= a b)))\n")
 	b.WriteString("(declare-fun strlen (Str) Int)\n")
-	b.WriteString("(assert (forall ((s Str)) (! (>= (strlen s) 0) :pattern ((strlen s)))))\n")
+	b.WriteString("(assert (forall ((s Str)) (! (and (>= (strlen s) 0) (<= (strlen s) 4611686018427387904)) :pattern ((strlen s)))))\n")
 	b.WriteString("(declare-fun strcat (Str Str) Str)\n")
 	b.WriteString("(assert (forall ((a Str) (b Str)) (! (= (strlen (strcat a b)) (+ (strlen a) (strlen b))) :pattern ((strcat a b)))))\n")
 	b.WriteString("(declare-fun strLt (Str Str) Bool)\n")
